@@ -112,7 +112,7 @@ def check_cover(mon, rng, label, order, X, scale):
             mon.count("oracle_wide")
             continue
         mag = float(max(np.abs(X[i] - X[j]).max(), dist))
-        tau = TAU_SOCP_ABS * scale + TAU_SOCP_REL * mag
+        tau = TAU_SOCP_ABS * max(scale, 1.0) + TAU_SOCP_REL * mag  # solver tolerances are absolute: the band does not shrink with tiny data
         for f in (0.5, 0.9, 1.1, 2.0):
             eps = dist * f if dist > 0 else scale * f * 0.1
             if abs(eps - dist) <= tau:
@@ -142,7 +142,7 @@ def check_uncovered(mon, rng, label, order, X, scale):
     hat = [int(i) for i in rng.choice(n, size=min(n, 3), replace=False)]
     eps = float(scale * 10 ** rng.uniform(-1.5, 0.3))
     mag = float(np.abs(X).max())
-    tau = TAU_SOCP_ABS * scale + TAU_SOCP_REL * mag
+    tau = TAU_SOCP_ABS * max(scale, 1.0) + TAU_SOCP_REL * mag  # solver tolerances are absolute: the band does not shrink with tiny data
     want, decisive = [], True
     for i in p_inds:
         cov = False
@@ -217,7 +217,7 @@ def check_f1(mon, rng, label, order, X, scale):
             true_idx.append(int(i))
     true_idx = np.array(true_idx)
     mag = float(np.abs(X).max())
-    tau = TAU_SOCP_ABS * scale + TAU_SOCP_REL * mag
+    tau = TAU_SOCP_ABS * max(scale, 1.0) + TAU_SOCP_REL * mag  # solver tolerances are absolute: the band does not shrink with tiny data
     kinds = ["true", "perm", "superset", "subset", "random", "all"]
     eps_grid = [0.0] + sorted(float(e) for e in scale * 10 ** rng.uniform(-2, 0.5, size=4))
     for kind in kinds:
